@@ -1,3 +1,76 @@
-(* C11 — placeholder while the floor is assembled *)
-From Coq Require Import ZArith List Bool.
-From FEC Require Import Models.FileIndexOpsM Models.LogReaderM.
+(* C11 — Log reader is a correct cursor over the filtered list after any history.
+   Property theorems only; each is closed by [exact <lemma>] and followed by Print Assumptions.
+
+   MODEL: Models/LogReaderM.v [step_op fixed] (read_next, filter_in_place with the relocation arithmetic,
+   filter_out_invalid_p1_times, clear_filters, rewind, seek_to_message, seek_to_eof) on the reader that
+   [construct fixed] returns.  SPEC: [spec_step] on a cursor (S, pos): S is the entry list obtained by
+   applying the position-defined meaning of each filter in sequence, pos the offset of the last entry
+   consumed; read examines the entries of S beyond pos in order. *)
+From Coq Require Import ZArith List Bool Sorted.
+From FEC Require Import Generated.LogReaderConsts Models.FileIndexOpsM Models.LogReaderM
+  Proofs.FileIndexOpsP Proofs.LogCursorP Proofs.LogReaderInitP Proofs.LogReaderExamplesP.
+Import ListNotations.
+Open Scope Z_scope.
+
+(* For every well-formed log, every constructor source filter and EVERY operation sequence (no length
+   bound) the reader's results — messages with their pieces / StopIteration / ValueError, IndexError —
+   are those of the cursor SPEC.  srcs' is the source filter in force after the constructor's discovery
+   step (None stays None; a request is reduced to a sub-list: the recorded C10 finding). *)
+Theorem C11_reader_refines_cursor : forall c f srcs ops,
+  wf_file f ->
+  exists srcs', run_script fixed c f srcs ops = Ok (spec_script c f srcs' ops) /\
+                (srcs = None -> srcs' = None) /\
+                (forall ids, srcs = Some ids -> exists ids', srcs' = Some ids' /\ incl ids' ids).
+Proof. exact script_refines. Qed.
+Print Assumptions C11_reader_refines_cursor.
+
+(* The same from any reader state satisfying the invariant, and the invariant is kept by every operation. *)
+Theorem C11_refines_from_any_state : forall c f ops r,
+  WF r -> fst (run_ops fixed c f r ops) = spec_run c f (cursor_of r) ops /\ WF (snd (run_ops fixed c f r ops)).
+Proof. exact run_refines_wf. Qed.
+Print Assumptions C11_refines_from_any_state.
+
+(* Key lemma: the argmax arithmetic of filter_in_place (including the empty index, the cursor at the
+   start, "idx = 0 and offset[0] <= prev" = past the end) puts next_index_elem exactly between the
+   entries at or before the remembered offset and those beyond it. *)
+Theorem C11_relocate_correct : forall data prev,
+  offs_inc data -> nonneg_offs data ->
+  exists A B, data = A ++ B /\ relocate data prev = zlen A /\
+              Forall (fun e => e_off e <= prev) A /\ Forall (fun e => prev < e_off e) B.
+Proof. exact relocate_correct. Qed.
+Print Assumptions C11_relocate_correct.
+
+(* What "the filters then in force" select: on an index whose P1 times do not decrease, __getitem__ for
+   every modelled key (type sets, time slices with hints, TimeRange objects, index slices) returns exactly
+   the position-defined meaning, errors included. *)
+Theorem C11_filter_meaning : forall fi k, times_sorted (fi_data fi) -> getitem fixed fi k = spec_getitem fi k.
+Proof. exact getitem_spec. Qed.
+Print Assumptions C11_filter_meaning.
+
+(* Declarative reading of the SPEC's read (no byte limit): the first entry of S beyond the cursor whose
+   message passes the source filter; iteration ends exactly when there is none. *)
+Theorem C11_read_is_first_match : forall c f s,
+  c_max_bytes c = None ->
+  snd (spec_step c f s OpRead) =
+  match find (passes (cs_srcs s) f) (beyond (cs_pos s) (fi_data (cs_cur s))) with
+  | Some e => match file_at f (e_off e) with Some m => RMsg m (assemble c m (e_off e) (e_idx e)) | None => RStop end
+  | None => RStop
+  end.
+Proof. exact spec_read_first_match. Qed.
+Print Assumptions C11_read_is_first_match.
+
+(* ---- non-vacuity: a concrete well-formed log (E P1 E P2 E P3 E U, Proofs/LogReaderExamplesP.v) and a script on it *)
+Example C11_nonvacuous :
+  wf_file ex_file /\
+  run_script fixed ex_cfg ex_file None ex_script
+  = Ok [RMsg (mkM 0 48 13004 0 None) [POffset 0]; RDone; RDone; RMsg (mkM 48 164 10000 0 (Some 8)) [POffset 48]; RDone;
+        RMsg (mkM 260 164 10000 0 (Some 16)) [POffset 260]; RErr ValueError; RDone; RStop].
+Proof. exact (conj ex_file_wf ex_script_result). Qed.
+
+(* What the code did before the repairs (the findings): after read, filter to Pose, clear_filters the
+   next read returned the first message again; remove-untimed removed nothing. *)
+Theorem C11_legacy_refuted :
+  run_script legacy ex_cfg_p ex_file None legacy_script_1 <> Ok (spec_script ex_cfg_p ex_file None legacy_script_1) /\
+  run_script legacy ex_cfg_p ex_file None legacy_script_2 <> Ok (spec_script ex_cfg_p ex_file None legacy_script_2).
+Proof. exact legacy_cursor_refuted. Qed.
+Print Assumptions C11_legacy_refuted.
